@@ -323,6 +323,8 @@ var hookVariants = [][]string{
 	{"view", "%mimetype", "%supertype", "%subtype"},
 	{"view", "%url", "%url", "-"},
 	{"/usr/bin/env", "PATH=%url", "handler", "%subtype", "%url"},
+	{"view", "--url=%url", "%mimetype"},
+	{"opener", "%urls", "x%url", "%supertype/%subtype"},
 }
 
 func planC20(tier string, seed uint64) *Plan {
